@@ -154,6 +154,9 @@ def predict_observances(provider, segs, first, last, exact=False):
     while pos < hi_pos and guard < 5000:
         guard += 1
         cur = info(pos)
+        if absolute and guard == 1:
+            # pytz: the window start is localised without normalising; inside a gap it keeps the offset before the gap
+            cur = seg_of_wall(lo)
         off = cur[1]
         if exact:
             # perfect detection: next ground-truth change of the utcoffset after pos
@@ -181,7 +184,7 @@ def predict_observances(provider, segs, first, last, exact=False):
                     break
                 end = last_end
         key = (prev_off if prev_off is not None else off, off, cur[2], cur[3])
-        groups.setdefault(key, []).append(wall(pos))
+        groups.setdefault(key, []).append(lo if guard == 1 else wall(pos))
         prev_off = off
         pos = end + timedelta(seconds=1)
     out = []
@@ -348,8 +351,18 @@ def run_case(case):
                 consequence = (kid2 is not None or conv_known)
                 _tz2, obs2, prob2 = read_generated(again)
                 weak_ok = not prob2 and {o.offset_to for o in obs2} == {o.offset_to for o in obs}
-                fails.append(fail("regeneration-differs", case, text[:300], again[:300],
-                                  known=(kid2 or "C13-onset-in-new-offset") if (consequence and weak_ok) else None))
+                known = (kid2 or "C13-onset-in-new-offset") if (consequence and weak_ok) else None
+                if known is None and not prob2:
+                    # the window starts inside a DAYLIGHT observance: its TZOFFSETFROM is unknown and written as TZOFFSETTO, so
+                    # the converted zone reports dst()=0 there and the regenerated first observance is STANDARD
+                    def sig(o, blind):
+                        k = "?" if blind and o.offset_from == o.offset_to and lo in o.onsets_local else o.kind
+                        return (k, o.offset_from, o.offset_to, o.tzname, tuple(o.onsets_local))
+                    first_dst = seg_at(segs, lo_utc)[3]
+                    if first_dst and sorted(sig(o, True) for o in obs) == sorted(sig(o, True) for o in obs2) \
+                            and sorted(sig(o, False) for o in obs) != sorted(sig(o, False) for o in obs2):
+                        known = "C13-first-observance-kind"
+                fails.append(fail("regeneration-differs", case, text[:300], again[:300], known=known))
                 outcome += "+regen-differs"
             else:
                 outcome += "+regen-same"
